@@ -267,6 +267,9 @@ func C02(run *report.Run) {
 			{world.LKeyCfg(2, []uint8{0, 2, 0, 1, 0}, 1, B, "big"), []string{"clone", "root+load"}, 2, true, 0},
 			{deep(B, "big"), []string{"root+load", "clone"}, 2, true, 1},
 			{world.IntCfg(2, []int{1, 2, 3, 4}, []interface{}{[]int{1}, []int{2, 3}}, []int{}, M, "big"), []string{"clone", "root+load"}, 2, true, 0},
+			// base sets merged on the exact key: the same tree reached with spare capacity in its node slices is a base of its own
+			{world.ExactKey(world.UintCfg(2, urange(1, 4), 1, B, "big")), []string{"clone", "root+load", "cursor"}, 2, true, 0},
+			{world.ExactKey(world.IntCfg(4, []int{1, 4, 5, 8, 9, 12}, []interface{}{"a"}, "", B, "big")), []string{"clone", "root+load"}, 2, true, 0},
 		}
 	} else {
 		all := []string{"clone", "root+load", "root+loadnc", "cursor", "clone-of-clone", "root+load-twice", "root+coldload-twice"}
@@ -382,7 +385,7 @@ func closureStatesBounded(run *report.Run, check string, cfg *world.Config) [][]
 		filtered = append(filtered, op)
 	}
 	maxStates := int64(40000)
-	e := &explore.Explorer{Cfg: &c2, Ops: filtered, Mon: explore.NopMonitor{}, Reduced: true, KeepHists: true, MaxStates: maxStates, MaxDepth: c2.MaxDepth}
+	e := &explore.Explorer{Cfg: &c2, Ops: filtered, Mon: explore.NopMonitor{}, Reduced: !c2.Exact, KeepHists: true, MaxStates: maxStates, MaxDepth: c2.MaxDepth}
 	if !world.HookAvailable {
 		e.MaxDepth = 2
 	}
